@@ -559,6 +559,14 @@ func (d *Decoder) LoadParityData() error {
 
 			return &parityFile, nil
 		}()
+		if err == nil && parityFile != nil {
+			for _, packet := range parityFile.recoveryPackets {
+				if len(packet.data) != d.sliceByteCount {
+					err = errors.New("recovery data byte count mismatch")
+					break
+				}
+			}
+		}
 		d.delegate.OnParityFileLoad(i+1, match, err)
 		if err != nil {
 			return err
